@@ -35,7 +35,7 @@ ASSUMPTIONS = [
     "garbage written by the caller is finite (1e6-scale) so that a live reference changes later outputs instead of crashing",
 ]
 
-LAYOUTS_X = ["c_order", "fortran", "view", "readonly_view", "frame", "mixed_frame", "buffer", "frame_buffer", "readonly_buffer"]
+LAYOUTS_X = ["c_order", "fortran", "view", "readonly_view", "frame", "mixed_frame", "buffer", "frame_buffer", "readonly_buffer", "zero_d_buffer", "one_d_view"]
 LAYOUTS_Y = ["arrays", "lists", "series"]
 
 
@@ -48,6 +48,10 @@ def cases(tier, seed):
         for lay in lays:
             if lay in ("buffer", "frame_buffer", "readonly_buffer") and zoo.kind(name) == "batch":
                 continue
+            if lay == "zero_d_buffer" and zoo.kind(name) != "x1":
+                continue  # a 0-d array is one number: univariate streaming detectors only
+            if lay == "one_d_view" and zoo.kind(name) == "xd":
+                continue  # a 1-d array is one feature (batch) or one observation of one feature (univariate streams)
             for i in range(n):
                 out.append({"id": "det/%s/%s/%d" % (name, lay, i), "kind": "det", "det": name, "layout": lay, "seed": [seed, 15, i], "cost": cost})
     for inj in c20.INJECTORS:
@@ -75,6 +79,13 @@ def make_obj(val, layout, names=None, mixed_ok=True):
         v = np.ascontiguousarray(a.copy()).view()
         v.flags.writeable = False
         return v
+    if layout == "zero_d_buffer":
+        return np.array(float(a.ravel()[0]))  # 0-d array (an nditer item, series[i, ...]); refilled in place by the caller
+    if layout == "one_d_view":
+        # one feature handed over as a 1-d slice of a larger array the caller keeps writing to (series[a:b], matrix[:, j])
+        big = np.zeros((a.shape[0] + 2, 3))
+        big[1:-1, 1] = a[:, 0]
+        return big[1:-1, 1]
     if layout == "view":
         big = np.zeros((a.shape[0] * 2, a.shape[1] * 3))
         big[::2, ::3] = a
@@ -138,7 +149,7 @@ def run(name, params, calls, layout, alias, key, ctx, count):
             mk = {"arrays": lambda v: np.array([v]), "lists": lambda v: [v], "series": lambda v: pd.Series([v])}[layout]
             args = [mk(yt), mk(yp)]
         else:
-            if layout in ("buffer", "frame_buffer", "readonly_buffer") and alias:
+            if layout in ("buffer", "frame_buffer", "readonly_buffer", "zero_d_buffer") and alias:
                 # realistic streaming pattern: one buffer object, refilled in place for every observation
                 if buf is None:
                     buf = make_obj(val, layout)
@@ -146,6 +157,8 @@ def run(name, params, calls, layout, alias, key, ctx, count):
                     buf.iloc[:, :] = np.asarray(val, dtype=float)
                 elif layout == "readonly_buffer":
                     buf.base[...] = np.asarray(val, dtype=float)
+                elif layout == "zero_d_buffer":
+                    buf[...] = float(np.asarray(val, dtype=float).ravel()[0])
                 else:
                     buf[...] = np.asarray(val, dtype=float)
                 args = [buf]
@@ -171,7 +184,7 @@ def run(name, params, calls, layout, alias, key, ctx, count):
                 ctx.violation("C15/%s/argument_modified/%s" % (name, layout), "%s.%s modified the %s object passed to it (call %d)" % (name, meth, layout, j),
                               detector=name, params=params, layout=layout, step=j)
                 return None
-        if alias and layout not in ("buffer", "frame_buffer", "readonly_buffer"):
+        if alias and layout not in ("buffer", "frame_buffer", "readonly_buffer", "zero_d_buffer"):
             for a in args:
                 clobber(a)
             if count:
@@ -194,7 +207,7 @@ def run_case(case, ctx):
     from .c14 import det_params, valid_history
 
     params = det_params(name, rng)
-    calls, d = valid_history(name, rng, params, allow_1d=True)
+    calls, d = valid_history(name, rng, params, allow_1d=True, p1d=1.0 if layout == "one_d_view" else 0.45)
     if d == 1 and zoo.kind(name) == "batch":
         ctx.count("one_column_batch_histories")
     a = run(name, params, calls, layout, True, key, ctx, True)
